@@ -287,6 +287,9 @@ def rename_raw_idents(ws):
         raise Inconclusive("no raw identifiers found to rename (anchor changed)")
 
 
+CURRENT_TIER = "quick"
+
+
 def assemble(ws, crates):
     listed = set()
     for crate in crates:
@@ -299,7 +302,7 @@ def assemble(ws, crates):
         if crate == "syntax":
             rename_raw_idents(ws)
             import gen_rules
-            src, _names = gen_rules.gen()
+            src, _names = gen_rules.gen(CURRENT_TIER)
             os.makedirs(os.path.join(ws, "verif_h"), exist_ok=True)
             open(os.path.join(ws, "verif_h", "rules_gen.rs"), "w").write(src)
         lib = {"syntax": "crates/syntax/src/lib.rs", "ide": "crates/ide/src/lib.rs",
@@ -351,7 +354,7 @@ def run_plan(ws, root, plan, idx, nslots, extra_args=None, tag="", batch=None):
             os.makedirs(td, exist_ok=True)
             lp = os.path.join(logs, same[0]["name"] + (f"+{len(same) - 1}" if len(same) > 1 else "") + ".log")
             fqs = [idx[h["name"]][1] for h in same]
-            tmo = sum(h.get("timeout", 900) for h in same)
+            tmo = sum(h.get("timeout", 900) for h in same) * (4 if CURRENT_TIER == "thorough" else 1)
             rc, wall = run_kani(ws, PACKAGE_OF[crate], fqs, td, lp, tmo,
                                 mem_gb=max(h.get("mem_gb", 16) for h in same), extra=extra_args)
             res, meta, txt = parse_kani_log(lp)
@@ -653,6 +656,8 @@ def replay_l2(ws, root, h, r, fails, crate, fq, prop="C04", no_playback=False):
                 off = 1
             else:
                 n = units[unit][4]
+                if CURRENT_TIER == "thorough":
+                    n = min(7, n + 2)
             kinds = [names[v[off + 3 * i][0]] for i in range(n)]
         except Exception:
             continue
@@ -764,6 +769,8 @@ REPLAYS = {
 
 
 def check(prop, tier, only=None, seed=0):
+    global CURRENT_TIER
+    CURRENT_TIER = tier
     t0 = time.time()
     plan = plan_for(prop, tier)
     if only:
@@ -960,6 +967,58 @@ def write_evidence(prop, tier, seed, plan, results, known, confirmed, inconclusi
     json.dump(ev, open(os.path.join(VERIF, "evidence", f"{prop}.json"), "w"), indent=1)
 
 
+def replay_file(prop, path):
+    """re-run a recorded counterexample against the CURRENT tree: exit 1 + VIOLATION line if it
+    still fails natively, exit 0 if it does not"""
+    d = json.load(open(path))
+    rep = d.get("replay", {})
+    root, ws, lock = prep_ws(prop + "-replay")
+    idx = harness_index()
+    crate, fq = idx[d["harness"]]
+    try:
+        assemble(ws, [crate])
+        if crate == "syntax":
+            hdir = os.path.join(ws, "verif_h")
+            if not os.path.exists(os.path.join(hdir, "completion_gen.rs")):
+                gen_completion_tables(ws)
+        still = False
+        texts = [b["text"] for b in rep.get("native_failures", []) if b.get("text") is not None]
+        if texts:
+            binp = build_native(ws)
+            listed = {f["id"] for f in load_known_findings().get("findings", [])}
+            oracles = [oracle_c01, oracle_c02, make_oracle_c04(listed)]
+            for x in native_parse_props(binp, texts):
+                whys = [w for w in (o(x) for o in oracles) if w]
+                print(json.dumps({"text": x.get("text"), "still_fails": bool(whys), "why": whys}))
+                still = still or bool(whys)
+        tests = [t for t in rep.get("tests", []) if t.get("test_source")]
+        if tests:
+            hfile = None
+            for hf, mf, mn in INJECT[crate]:
+                if ("::" + mn + "::") in ("::" + fq):
+                    hfile = os.path.join(ws, "verif_h", os.path.basename(hf))
+            with open(hfile, "a") as f:
+                for t in tests:
+                    f.write("\n" + t["test_source"] + "\n")
+            env = dict(os.environ)
+            env["CARGO_NET_OFFLINE"] = "true"
+            for t in tests:
+                r = subprocess.run(["cargo", "kani", "playback", "-Z", "concrete-playback", "-p", PACKAGE_OF[crate],
+                                    "--", t["name"]], cwd=ws, env=env, stdout=subprocess.PIPE,
+                                   stderr=subprocess.STDOUT)
+                o = r.stdout.decode("utf-8", "replace")
+                failed = bool(re.search(r"test result: FAILED|panicked at", o))
+                print(json.dumps({"test": t["name"], "check": t.get("check"), "still_fails": failed}))
+                still = still or failed
+        if still:
+            print(f"VIOLATION property={prop} replay={path}")
+            return 1
+        print("replay: the recorded counterexample no longer fails on the current tree")
+        return 0
+    finally:
+        shutil.rmtree(ws, ignore_errors=True)
+
+
 def main(argv):
     import argparse
     ap = argparse.ArgumentParser()
@@ -970,9 +1029,7 @@ def main(argv):
     a = ap.parse_args(argv)
     seed = int(os.environ.get("VERIF_SEED", "0") or 0)
     if a.replay:
-        d = json.load(open(a.replay))
-        print(json.dumps(d, indent=1))
-        return 0
+        return replay_file(a.prop, a.replay)
     return check(a.prop, a.tier, only=a.only, seed=seed)
 
 
